@@ -37,7 +37,7 @@ COMPONENTS = {
     'stub': common.COMPONENTS['stub'],
 }
 ASSUMPTIONS = ['FIFO ready queue', 'hooks are probed in the generated subclasses before delegating to super()']
-EXPECTED_COUNTERS = ['probe:callback_on_parent', 'probe:step', 'probe:after_await', 'probe:callback', 'probe:hook', 'probe:after_nested', 'probe:launched',
+EXPECTED_COUNTERS = ['probe:waiting_step_interrupted', 'probe:callback_on_parent', 'probe:step', 'probe:after_await', 'probe:callback', 'probe:hook', 'probe:after_nested', 'probe:launched',
                      'sample:between_handles', 'sample:inside_nested', 'interleaved_runs', 'nested_depth2']
 HOOK_OUTPUT = ('on_output_emitting', 'on_output_emitted')
 
@@ -66,7 +66,7 @@ def gen_program(rng, depth, children_pool):
                 roll = rng.random()
                 if roll < 0.25:
                     program['children'].append(gen_program(rng, depth + 1, children_pool))
-                    kind = 'execute' if rng.random() < 0.5 else 'launch'
+                    kind = rng.choice(['execute', 'launch', 'await_child'] if step.get('async') else ['execute', 'launch'])
                     group.append({'e': kind, 'child': len(program['children']) - 1})
     return program
 
@@ -147,6 +147,7 @@ def run(case):
             proc._sim_label = f'p{index}'
             procs.append(proc)
             loop.call_later(case['starts'][index], lambda proc=proc: loop.create_task(proc.step_until_terminated()))
+        interrupted = set()
         for _ in range(200):
             loop.run_until_quiescent()
             live = [p for p in procs + world.children if not p.has_terminated()]
@@ -158,7 +159,15 @@ def run(case):
                     proc.play()
                     progressed = True
                 elif proc.state.value == 'waiting':
-                    proc.resume(['rv', 0, 0])
+                    if id(proc) not in interrupted and len(interrupted) % 2 == 0:
+                        # every other waiting step is first interrupted by a pause (its step is left through an
+                        # interruption), then played and resumed
+                        interrupted.add(id(proc))
+                        proc.pause()
+                        result.counters['probe:waiting_step_interrupted'] += 1
+                    else:
+                        interrupted.add(id(proc))
+                        proc.resume(['rv', 0, 0])
                     progressed = True
             if not progressed:
                 break
